@@ -14,6 +14,7 @@ import (
 	"strings"
 	"time"
 
+	"verif/checks/c11"
 	"verif/checks/c19"
 	"verif/internal/diff"
 	"verif/internal/oracle"
@@ -48,6 +49,14 @@ func verdict(src string) diff.Verdict {
 func main() {
 	if len(os.Args) > 1 && os.Args[1] == "worker" {
 		yrun.WorkerMain(os.Args[2:])
+		return
+	}
+	if os.Getenv("REDUCE_MODE") == "c11" {
+		rf, err := vf.LoadReplay(os.Args[1])
+		if err != nil {
+			panic(err)
+		}
+		fmt.Println(c11.Reduce(rf.Case))
 		return
 	}
 	var src string
